@@ -10,10 +10,11 @@ META = dict(
     scope='properties_output_size (sum of widths, frame); 2D wrapper: stride == layout of the 3D answer, slots outside velocity blocks bit-identical, one 3D evaluation',
     not_covered=['the inside of temperature/composition/grains models and of distance_point_from_curved_planes beyond their frame',
                  'independence from other worlds alive in the process beyond the absence of writable globals in the translated query path'],
-    enforced_elsewhere={},
+    enforced_elsewhere={'World_properties_3d': 'props3d (layout clauses: number of values == g_total, unknown property id refused)'},
 )
 WORLD_CC = 'source/world_builder/world.cc'
 ALIASES = {
+    'WorldBuilder::Objects::NaturalCoordinate::NaturalCoordinate|const Point<3>': 'NaturalCoordinate_ctor',
     'WorldBuilder::World::properties|std::array<double, 3>': 'World_properties_3d',
     'WorldBuilder::World::properties|std::array<double, 2>': 'World_properties_2d',
 }
@@ -28,6 +29,43 @@ UNITS = [
                       '__CPROVER_loop_invariant(g_prefix <= wb_i1 * 42949672950ul)\n'
                       '__CPROVER_decreases(wb_r1->n - wb_i1)',
              begin='g_prefix += WIDTH(property);')}),
+    dict(name='props3d', enforce='World_properties_3d', contracts='c01_3d.c',
+         targets=[dict(tu=WORLD_CC, qual='WorldBuilder::World::properties', sig='std::array<double, 3>', cname='World_properties_3d')],
+         aliases=ALIASES, stub=['NaturalCoordinate_ctor'], outline_fp=True,
+         replace=['NaturalCoordinate_ctor', 'GravityModel_Interface_gravity_norm', 'Features_Interface_properties'],
+         defines={'MAXP': 4, 'WB_VEC_CAP': 4, 'WB_CAP_vec_arr_uint_3': 4, 'WB_CAP_vec_double': 48, 'WB_CAP_vec_ulong': 4},
+         defines_thorough={'MAXP': 8, 'WB_CAP_vec_arr_uint_3': 8, 'WB_CAP_vec_double': 96, 'WB_CAP_vec_ulong': 8, 'WB_VEC_CAP': 8},
+         expect_fail=['REACHABILITY-GUARD'],
+         canaries=[(r'vec_double_push\(&output, \(-1\)\)', 'vec_double_push(&output, (0))', 'tag background 0 instead of -1'),
+                   (r'e\[\(\(unsigned long\)2\)\] \* \(\(unsigned int\)10\)', 'e[((unsigned long)2)] * ((unsigned int)9)', 'grains block of 9 values per grain'),
+                   (r'(output\.data\[wb_idx\(entry_in_output[^;]*= this_->surface_temperature)', r'\1 + 1.0', 'forced surface temperature off by one kelvin'),
+                   (r'if \(\(properties_local\.data\[wb_idx\(\(\(unsigned long\)i_property\), properties_local\.n\)\]\.e\[\(\(unsigned long\)0\)\] == \(\(unsigned int\)1\)\)\)', 'if (1)', 'forced temperature written into every block'),
+                   (r'Features_Interface_properties\(\(\*it\), &point, &natural_coordinate, depth,', 'Features_Interface_properties((*it), &point, &natural_coordinate, depth + 1.0,', 'features evaluated at another depth')],
+         loops={
+           ('World_properties_3d', 1): dict(
+             pre='if (wb_g_slot < g_total) g_bg = (REQ(g_blk).e[0] == 1u) ? (FORCED(this_, depth) ? this_->surface_temperature : '
+                 'E_mul_a_exp_mul_div_mul_a_a_a_a(this_->potential_mantle_temperature, this_->thermal_expansion_coefficient, gravity_norm, this_->specific_heat, depth)) '
+                 ': (REQ(g_blk).e[0] == 4u ? -1.0 : 0.0);',
+             contract='__CPROVER_assigns(i_property, output, entry_in_output, properties_local, wb_thrown)\n'
+                      '__CPROVER_loop_invariant(i_property <= properties->n && !wb_thrown && output.n == g_pre[i_property] && entry_in_output.n == i_property && properties_local.n == i_property)\n'
+                      '__CPROVER_loop_invariant(g_pre[i_property] <= g_total && (!g_allvalid ==> g_bad >= i_property))\n'
+                      '__CPROVER_loop_invariant(FORALL_K(TAB_OK, i_property))\n'
+                      '__CPROVER_loop_invariant((wb_g_slot < g_total && i_property > g_blk) ==> SAMEL(output.data[wb_g_slot], g_bg))\n'
+                      '__CPROVER_decreases(properties->n - i_property)'),
+           ('World_properties_3d', 2): dict(
+             contract='__CPROVER_assigns(wb_i2, output, wb_thrown, g_next_feature, g_chain)\n'
+                      '__CPROVER_loop_invariant(wb_i2 <= wb_r2->n && wb_r2 == &this_->parameters.features && g_next_feature == wb_i2 && !wb_thrown && output.n == g_total)\n'
+                      '__CPROVER_loop_invariant((wb_g_slot < g_total && wb_i2 == 0) ==> SAMEL(output.data[wb_g_slot], g_bg))\n'
+                      '__CPROVER_loop_invariant((wb_g_slot < g_total && wb_i2 > 0) ==> SAMEL(output.data[wb_g_slot], g_chain))\n'
+                      '__CPROVER_decreases(wb_r2->n - wb_i2)'),
+           ('World_properties_3d', 3): dict(
+             pre='if (wb_g_slot < g_total) g_last = output.data[wb_g_slot];',
+             contract='__CPROVER_assigns(i_property, output)\n'
+                      '__CPROVER_loop_invariant(i_property <= properties_local.n && output.n == g_total)\n'
+                      '__CPROVER_loop_invariant((wb_g_slot < g_total && REQ(g_blk).e[0] == 1u && i_property > g_blk) ==> SAMEL(output.data[wb_g_slot], this_->surface_temperature))\n'
+                      '__CPROVER_loop_invariant((wb_g_slot < g_total && !(REQ(g_blk).e[0] == 1u && i_property > g_blk)) ==> SAMEL(output.data[wb_g_slot], g_last))\n'
+                      '__CPROVER_decreases(properties_local.n - i_property)'),
+         }),
     dict(name='props2d', enforce='World_properties_2d', contracts='c01_2d.c',
          targets=[dict(tu=WORLD_CC, qual='WorldBuilder::World::properties', sig='std::array<double, 2>', cname='World_properties_2d')],
          aliases=ALIASES, stub=['World_properties_3d'], outline_fp=True,
